@@ -38,7 +38,24 @@ def decide_oracles(cases):
                  {"store": "both_store", "select": "both_select", "update": "both_update"}[c["k"]])
         idx.append(i)
         exprs.append(e)
-    vals = gv.coq_eval(PROP + "_both", REQ_RUN, exprs, shard=40)
+    # balance the shards: longest-processing-time-first packing by term size (the three large
+    # data sets count eightfold), so that no shard is the long pole of the parallel evaluation
+    shard = 40
+    nb = max(1, (len(exprs) + shard - 1) // shard)
+    cost = [len(e) * (8 if any("big" in t for t in cases[i].get("tags", [])) else 1) for i, e in zip(idx, exprs)]
+    bins = [[0, []] for _ in range(nb)]
+    for j in sorted(range(len(exprs)), key=lambda j: -cost[j]):
+        b = min((b for b in bins if len(b[1]) < shard), key=lambda b: b[0])
+        b[0] += cost[j]
+        b[1].append(j)
+    # coq_eval slices its input into consecutive blocks of `shard`: full bins first
+    full = [b for b in bins if len(b[1]) == shard]
+    rest = [b for b in bins if len(b[1]) < shard]
+    packed = [j for b in full for j in b[1]] + [j for b in rest for j in b[1]]
+    pvals = gv.coq_eval(PROP + "_both", REQ_RUN, [exprs[j] for j in packed], shard=shard)
+    vals = [None] * len(exprs)
+    for j, v in zip(packed, pvals):
+        vals[j] = v
     for i, v in zip(idx, vals):
         c = cases[i]
         parts = [x.strip() for x in v.strip("()").split(",")]
@@ -74,7 +91,7 @@ def run(tier, seed):
     # 900 cases on the pinned tree; x3 / x8 when /repo (an anchored file) moved (gv.scaled).
     # GV_C13_CASES: debugging knob for self-tests under load only (the registered commands never set it);
     # the generated cases of a smaller count are a prefix of those of a larger one.
-    ncases = gv.scaled(PROP, tier, 900, 24000, chk)
+    ncases = gv.scaled(PROP, tier, 900, 12000, chk)
     if gv.os.environ.get("GV_C13_CASES"):
         ncases = int(gv.os.environ["GV_C13_CASES"])
         chk.notes.append("GV_C13_CASES=%d overrides the case count" % ncases)
